@@ -2,7 +2,8 @@
     CreateTxGroup, RebuiltGroup, Transactions.CheckWithFork / Check /
     CheckSign / Tx, Transaction.GetTxGroup / Check / check / GetRealFee;
     types/config.go: IsParaExecName, GetParaExecTitleName; types/fork.go:
-    IsFork), as the code is.
+    IsFork), as the code is (from chain33 db466e1 on: CreateTxGroup and
+    RebuiltGroup clear the Next of the last member).
 
     The transaction record, its wire encoding, [hash_pre] (the bytes that
     Transaction.Hash feeds to SHA-256) and [check_sign] come from C16.  SHA-256
@@ -110,7 +111,10 @@ Variable H : list N -> list N.
 Definition thash (t : tx) : list N := H (hash_pre t).
 
 (** ** CreateTxGroup *)
-(** members n-1 .. 1 (processed from the last one): result list, totalfee, minfee *)
+(** members n-1 .. 1 (processed from the last one): result list, totalfee, minfee.
+    The Next of the last member is cleared before anything else
+    (txs[len(txs)-1].Next = nil), so its creation-time size is computed
+    without it. *)
 Fixpoint create_tail (n : Z) (hdr0 : list N) (rate : Z) (txs : list tx)
   : option (list tx * Z * Z) :=
   match txs with
@@ -119,7 +123,7 @@ Fixpoint create_tail (n : Z) (hdr0 : list N) (rate : Z) (txs : list tx)
       match create_tail n hdr0 rate rest with
       | None => None
       | Some (rest', tot, mn) =>
-          let nx := match rest' with [] => next t | t1 :: _ => thash t1 end in
+          let nx := match rest' with [] => [] | t1 :: _ => thash t1 end in
           let t' := upd t 0 n hdr0 nx in
           match real_fee t' rate with
           | None => None
@@ -150,14 +154,15 @@ Definition create_group (txs : list tx) (rate : Z) : gerr + list tx :=
       end
   end.
 
-(** ** RebuiltGroup (the Go code indexes Txs[0]: an empty group panics = [None]) *)
+(** ** RebuiltGroup (the Go code indexes Txs[len-1] and Txs[0]: an empty group
+    panics = [None]); the Next of the last member is cleared first *)
 Fixpoint relink (L : list tx) : list tx :=
   match L with
   | [] => []
   | t :: rest =>
       let rest' := relink rest in
       match rest' with
-      | [] => [t]
+      | [] => [set_next [] t]
       | t1 :: _ => set_next (thash t1) t :: rest'
       end
   end.
